@@ -102,6 +102,58 @@ def md5Params : Md5.Params :=
    [0x67452301, 0xefcdab89, 0x98badcfe, 0x10325476],
    0x80 :: List.replicate 63 0⟩
 
+
+/-! ### MD5 (RFC 1321 §3) as one function of the whole message: pad, split in 512-bit blocks, 64 steps per block on
+the rotating variables A B C D -/
+abbrev Md5State := UInt32 × UInt32 × UInt32 × UInt32
+
+def rotl32 (x : UInt32) (n : Nat) : UInt32 := (x <<< UInt32.ofNat n) ||| (x >>> UInt32.ofNat (32 - n))
+
+/-- RFC 1321 `Decode`: little-endian bytes → 32-bit words -/
+def md5Decode : List UInt8 → List UInt32
+  | b0 :: b1 :: b2 :: b3 :: r =>
+      (b0.toUInt32 ||| (b1.toUInt32 <<< 8) ||| (b2.toUInt32 <<< 16) ||| (b3.toUInt32 <<< 24)) :: md5Decode r
+  | _ => []
+
+/-- RFC 1321 `Encode`: words → little-endian bytes -/
+def md5Encode : List UInt32 → List UInt8
+  | [] => []
+  | w :: r => (w &&& 0xFF).toUInt8 :: ((w >>> 8) &&& 0xFF).toUInt8 :: ((w >>> 16) &&& 0xFF).toUInt8
+              :: ((w >>> 24) &&& 0xFF).toUInt8 :: md5Encode r
+
+/-- step i (0-based) of §3.4: a = b + ((a + F/G/H/I(b,c,d) + X[k] + T[i+1]) <<< s), then the variables rotate -/
+def md5Step (x : List UInt32) (s : Md5State) (i : Nat) : Md5State :=
+  let (a, b, c, d) := s
+  let f := match i / 16 with
+    | 0 => (b &&& c) ||| (~~~b &&& d)
+    | 1 => (b &&& d) ||| (c &&& ~~~d)
+    | 2 => b ^^^ c ^^^ d
+    | _ => c ^^^ (b ||| ~~~d)
+  let t := a + f + x.getD (md5Word i) 0 + md5T.getD i 0
+  (d, b + rotl32 t (md5Shift i), b, c)
+
+/-- process one 16-word block -/
+def md5Compress (s : Md5State) (block : List UInt8) : Md5State :=
+  let x := md5Decode block
+  let (a, b, c, d) := (List.range 64).foldl (md5Step x) s
+  (s.1 + a, s.2.1 + b, s.2.2.1 + c, s.2.2.2 + d)
+
+/-- §3.1–3.2: a single 1 bit, zeros up to 448 mod 512, the bit length (mod 2^64) low-order word first -/
+def md5Pad (m : List UInt8) : List UInt8 :=
+  let bits := 8 * m.length
+  m ++ [0x80] ++ List.replicate ((119 - m.length % 64) % 64) 0
+    ++ md5Encode [UInt32.ofNat (bits % 2 ^ 32), UInt32.ofNat (bits / 2 ^ 32 % 2 ^ 32)]
+
+def md5Blocks : Nat → Md5State → List UInt8 → Md5State
+  | 0, s, _ => s
+  | fuel + 1, s, d => if 64 ≤ d.length then md5Blocks fuel (md5Compress s (d.take 64)) (d.drop 64) else s
+
+/-- the MD5 digest of a message -/
+def md5 (m : List UInt8) : List UInt8 :=
+  let p := md5Pad m
+  let (a, b, c, d) := md5Blocks p.length (0x67452301, 0xefcdab89, 0x98badcfe, 0x10325476) p
+  md5Encode [a, b, c, d]
+
 /-! ### AES (FIPS-197 §5.1.1): S-box = affine ∘ multiplicative inverse in GF(2^8) -/
 def gmul (a b : UInt8) : UInt8 :=
   (List.range 8).foldl (fun (acc : UInt8 × UInt8) i =>
@@ -122,6 +174,70 @@ def rotl8 (x : UInt8) (n : UInt8) : UInt8 := (x <<< n) ||| (x >>> (8 - n))
 def sboxSpec (a : UInt8) : UInt8 :=
   let b := ginv a
   b ^^^ rotl8 b 1 ^^^ rotl8 b 2 ^^^ rotl8 b 3 ^^^ rotl8 b 4 ^^^ 0x63
+
+
+/-! ### AES-128 (FIPS-197 §5) as functions of key and block. The state is kept in input order
+(s[r,c] = in[r + 4c], §3.4), i.e. as its four column words one after the other. -/
+/-- InvSubBytes byte map (§5.3.2): inverse affine map, then the GF(2^8) inverse -/
+def invSboxSpec (y : UInt8) : UInt8 := ginv (rotl8 y 1 ^^^ rotl8 y 3 ^^^ rotl8 y 6 ^^^ 0x05)
+
+def aesSubBytes (st : List UInt8) : List UInt8 := st.map sboxSpec
+def aesInvSubBytes (st : List UInt8) : List UInt8 := st.map invSboxSpec
+
+/-- §5.1.2: s'[r,c] = s[r,(c + r) mod 4] -/
+def aesShiftRows (st : List UInt8) : List UInt8 :=
+  (List.range 16).map fun i => st.getD (4 * ((i / 4 + i % 4) % 4) + i % 4) 0
+/-- §5.3.1: s'[r,(c + r) mod 4] = s[r,c] -/
+def aesInvShiftRows (st : List UInt8) : List UInt8 :=
+  (List.range 16).map fun i => st.getD (4 * ((i / 4 + 4 - i % 4) % 4) + i % 4) 0
+
+/-- §5.1.3 (5.6): one column times the fixed polynomial {03}x³+{01}x²+{01}x+{02} -/
+def aesMixCol (a0 a1 a2 a3 : UInt8) : List UInt8 :=
+  [gmul 2 a0 ^^^ gmul 3 a1 ^^^ a2 ^^^ a3, a0 ^^^ gmul 2 a1 ^^^ gmul 3 a2 ^^^ a3,
+   a0 ^^^ a1 ^^^ gmul 2 a2 ^^^ gmul 3 a3, gmul 3 a0 ^^^ a1 ^^^ a2 ^^^ gmul 2 a3]
+def aesMixColumns : List UInt8 → List UInt8
+  | a0 :: a1 :: a2 :: a3 :: r => aesMixCol a0 a1 a2 a3 ++ aesMixColumns r
+  | _ => []
+/-- §5.3.3 (5.10): {0b}x³+{0d}x²+{09}x+{0e} -/
+def aesInvMixCol (a0 a1 a2 a3 : UInt8) : List UInt8 :=
+  [gmul 0x0e a0 ^^^ gmul 0x0b a1 ^^^ gmul 0x0d a2 ^^^ gmul 0x09 a3,
+   gmul 0x09 a0 ^^^ gmul 0x0e a1 ^^^ gmul 0x0b a2 ^^^ gmul 0x0d a3,
+   gmul 0x0d a0 ^^^ gmul 0x09 a1 ^^^ gmul 0x0e a2 ^^^ gmul 0x0b a3,
+   gmul 0x0b a0 ^^^ gmul 0x0d a1 ^^^ gmul 0x09 a2 ^^^ gmul 0x0e a3]
+def aesInvMixColumns : List UInt8 → List UInt8
+  | a0 :: a1 :: a2 :: a3 :: r => aesInvMixCol a0 a1 a2 a3 ++ aesInvMixColumns r
+  | _ => []
+
+def aesXor (a b : List UInt8) : List UInt8 := List.zipWith (· ^^^ ·) a b
+
+/-- §5.2 KeyExpansion for Nk = 4: the 44 words w[0..43] -/
+def aesRotWord : List UInt8 → List UInt8
+  | [a, b, c, d] => [b, c, d, a]
+  | w => w
+def aesKeyStep (ws : List (List UInt8)) (i : Nat) : List (List UInt8) :=
+  let temp := ws.getD (i - 1) []
+  let temp := if i % 4 = 0 then aesXor ((aesRotWord temp).map sboxSpec) [gpow 2 (i / 4 - 1), 0, 0, 0] else temp
+  ws ++ [aesXor (ws.getD (i - 4) []) temp]
+def aesKeyWords (key : List UInt8) : List (List UInt8) :=
+  (List.range' 4 40).foldl aesKeyStep [key.take 4, (key.drop 4).take 4, (key.drop 8).take 4, (key.drop 12).take 4]
+/-- round key r = words w[4r .. 4r+3] -/
+def aesRoundKey (ws : List (List UInt8)) (r : Nat) : List UInt8 := ((ws.drop (4 * r)).take 4).flatten
+
+/-- §5.1 Cipher -/
+def aesCipher (key inp : List UInt8) : List UInt8 :=
+  let ws := aesKeyWords key
+  let st := aesXor inp (aesRoundKey ws 0)
+  let st := (List.range' 1 9).foldl
+    (fun st r => aesXor (aesMixColumns (aesShiftRows (aesSubBytes st))) (aesRoundKey ws r)) st
+  aesXor (aesShiftRows (aesSubBytes st)) (aesRoundKey ws 10)
+
+/-- §5.3 InvCipher -/
+def aesInvCipher (key inp : List UInt8) : List UInt8 :=
+  let ws := aesKeyWords key
+  let st := aesXor inp (aesRoundKey ws 10)
+  let st := [9, 8, 7, 6, 5, 4, 3, 2, 1].foldl
+    (fun st r => aesInvMixColumns (aesXor (aesInvSubBytes (aesInvShiftRows st)) (aesRoundKey ws r))) st
+  aesXor (aesInvSubBytes (aesInvShiftRows st)) (aesRoundKey ws 0)
 
 def sboxTable : List UInt8 := (List.range 256).map (fun i => sboxSpec (UInt8.ofNat i))
 /-- 64 consecutive S-box entries (the table theorem is checked in four chunks) -/
